@@ -85,22 +85,25 @@ def run(ch, config, res):
             o = world.call(client, "connect", "user", "password")
         if o.kind == "ret" and o.value is True:
             armed[0] = True
-            with ch.scope("op#1"):
-                o = world.call(client, "listscripts")
-            exp_active = srv.active.decode("utf-8") if srv.active else None
-            exp_others = sorted(k.decode("utf-8") for k in srv.scripts if k != srv.active)
-            rec = [r for r in srv.log if r.call_id == o.call_id]
-            raw = rec[-1].raw if rec else b""
-            if o.kind != "ret" or not isinstance(o.value, tuple) or len(o.value) != 2:
-                failure = Failure(PROP, "C17.names", "listscripts %r although the server answered %r" % (o, raw), {"reply": raw})
-            else:
+            def check_listing(scope, again=""):
+                with ch.scope(scope):
+                    o = world.call(client, "listscripts")
+                exp_active = srv.active.decode("utf-8") if srv.active else None
+                exp_others = sorted(k.decode("utf-8") for k in srv.scripts if k != srv.active)
+                rec = [r for r in srv.log if r.call_id == o.call_id]
+                raw = rec[-1].raw if rec else b""
+                if o.kind != "ret" or not isinstance(o.value, tuple) or len(o.value) != 2:
+                    return Failure(PROP, "C17.names", "listscripts%s %r although the server answered %r" % (again, o, raw), {"reply": raw}), raw
                 act, others = o.value
                 if act != exp_active:
-                    failure = Failure(PROP, "C17.active", "listscripts reports active=%r, the server's active script is %r (reply %r)" % (
-                        act, exp_active, raw), {"reply": raw})
-                elif sorted(others) != exp_others:
-                    failure = Failure(PROP, "C17.names", "listscripts reports %r, the server holds %r (reply %r)" % (
-                        sorted(others), exp_others, raw), {"reply": raw})
+                    return Failure(PROP, "C17.active", "listscripts%s reports active=%r, the server's active script is %r (reply %r)" % (
+                        again, act, exp_active, raw), {"reply": raw}), raw
+                if sorted(others) != exp_others:
+                    return Failure(PROP, "C17.names", "listscripts%s reports %r, the server holds %r (reply %r)" % (
+                        again, sorted(others), exp_others, raw), {"reply": raw}), raw
+                return None, raw
+
+            failure, raw = check_listing("op#1")
             for nm in srv.scripts:
                 cls = "plain" if nm.isalnum() and nm.islower() else "lookalike"
                 enc = "lit" if (b"{%d}" % len(nm)) in raw else "q"
@@ -137,6 +140,17 @@ def run(ch, config, res):
                     shape.append("lf")
                 first = gen.lines_of(stored)[:1]
                 res.sigs.add("get|%s|%s|first=%s" % (enc, ",".join(shape), first[0][:12].decode("utf-8", "replace") if first else ""))
+            # the same questions once more on the same connection: nothing may have been used up by the first answers
+            if failure is None and o.kind == "ret":
+                failure, _ = check_listing("again#1", " (second call on the same connection)")
+                for j, (nm, stored) in enumerate(list(srv.scripts.items())[:2]):
+                    if failure is not None:
+                        break
+                    with ch.scope("again#g%d" % j):
+                        o2 = world.call(client, "getscript", nm.decode("utf-8"))
+                    exp = [l.decode("utf-8") for l in gen.lines_of(stored)]
+                    if o2.kind != "ret" or not isinstance(o2.value, str) or text_lines(o2.value) != exp:
+                        failure = Failure(PROP, "C17.body", "second getscript(%r) on the same connection %r; the server holds %r" % (nm, o2, stored), {})
     res.digest = world.digest()
     res.sim_time = world.clock.now
     for k, v in world.net.stats.policy_counts.items():
